@@ -316,8 +316,12 @@ impl Directive {
                             // which is not handed on to the including file: an entry of its own
                             // (same directory, spelled `dir/../dir`, which compares unequal) makes it
                             // an `.includepath` like any other
-                            if let Some(name) = path.file_name() {
-                                let respelled = path.join("..").join(name);
+                            let respelled = match path.file_name() {
+                                Some(name) => Some(path.join("..").join(name)),
+                                // (`dir/..` has no name to repeat)
+                                None => path.canonicalize().ok(),
+                            };
+                            if let Some(respelled) = respelled {
                                 include_paths.borrow_mut().insert(respelled);
                             }
                         }
